@@ -577,6 +577,24 @@ class Threads(EngineBase):
                                                        "pid": rng.choice(
                                                            [2, 3, 4])}})
                 threads.append(ops)
+        elif prog == "C02t":
+            # several threads ask is_running() / == on ONE object; at most
+            # one of them makes the process exit (or the PID change hands)
+            killer = rng.randrange(nthreads) if rng.random() < 0.5 else None
+            for t in range(nthreads):
+                ops = []
+                n = rng.randrange(1, 4)
+                kill_at = rng.randrange(n + 1) if t == killer else None
+                for i in range(n):
+                    if i == kill_at:
+                        ops.append({"op": "ev", "ev": {"ev": rng.choice(
+                            ["vanish", "reuse", "zombify"]), "pid": T}})
+                    ops.append({"op": rng.choice(["is_running", "is_running",
+                                                  "eq"])})
+                if kill_at == n:
+                    ops.append({"op": "ev", "ev": {"ev": rng.choice(
+                        ["vanish", "reuse"]), "pid": T}})
+                threads.append(ops)
         elif prog == "C07t":
             world = None
             cpu_ids = boot["cpu_ids"]
@@ -649,7 +667,7 @@ class Threads(EngineBase):
                          "api": api, "msg": msg})
 
         shared = {}
-        if prog == "C16t":
+        if prog in ("C16t", "C02t"):
             k.begin_op(0)
             shared["p"] = psutil.Process(T)
             k.end_op()
@@ -674,6 +692,8 @@ class Threads(EngineBase):
                 kind = op["op"]
                 if kind == "ev":
                     k.apply_event(op["ev"])
+                    shared.setdefault("ev_versions", []).append(
+                        (k.version, op["ev"]["ev"]))
                     continue
                 k.begin_op(1000 * (t + 1) + j, thread=t)
                 self._run_thread_op(psutil, k, sched, prog, shared, t, j, op,
@@ -764,6 +784,15 @@ class Threads(EngineBase):
                         blocks_active.remove(me)
                 else:
                     rec["out"] = ("value", call_getter(p, op["m"]))
+            elif prog == "C02t":
+                p = shared["p"]
+                if kind == "is_running":
+                    rec["out"] = ("value", p.is_running())
+                else:
+                    q = psutil.Process(T)
+                    rec["inc2"] = k.procs[T].inc if T in k.procs else None
+                    rec["out"] = ("value", (p == q, p != q,
+                                            hash(p) == hash(q)))
             elif prog == "C04t":
                 if kind == "iter":
                     g = psutil.process_iter()
@@ -1048,6 +1077,76 @@ class Threads(EngineBase):
               "process_iter", "sequential iteration after the threads "
               "raised %r" % (e,))
 
+    def check_C02t(self, W, psutil, k, plan, records, V, probes, keys):
+        evs = self._shared.get("ev_versions") or []
+        # the version from which the object's own process is out of the
+        # table (a zombie is still in it)
+        gone_v = min([v for v, e in evs if e in ("vanish", "reuse")] or
+                     [None], key=lambda x: (x is None, x))
+        allrecs = sorted((r for recs in records for r in recs
+                          if "out" in r), key=lambda r: r["nacc0"])
+        first_false_end = None
+        for rec in allrecs:
+            t, out, kind = rec["t"], rec["out"], rec["op"]["op"]
+            before = gone_v is None or rec["v1"] < gone_v
+            after = gone_v is not None and rec["v0"] >= gone_v
+            if out[0] == "exc":
+                cls = exc_class(psutil, out[1])
+                if kind == "is_running" or before or cls not in ("NSP",):
+                    V("C02.running" if kind == "is_running" else "C02.eq",
+                      ["exception", "threads", cls], kind,
+                      "thread %d: %s raised %r" % (t, kind, out[1]))
+                continue
+            if kind == "is_running":
+                val = out[1]
+                if before and val is not True:
+                    V("C02.running_while_listed", ["threads"], "is_running",
+                      "thread %d: is_running() -> %r on an object shared by "
+                      "%d threads while its process stayed in the table for "
+                      "the whole call" % (t, val, len(records)))
+                if after and val is not False:
+                    V("C02.running_after_gone", ["threads"], "is_running",
+                      "thread %d: is_running() -> %r in a call that began "
+                      "after the process had left the table" % (t, val))
+                if val is True and first_false_end is not None and \
+                        rec["nacc0"] > first_false_end:
+                    V("C02.sticky", ["threads"], "is_running",
+                      "thread %d: is_running() True in a call that began "
+                      "after another call had returned False" % t)
+                if val is False and (first_false_end is None or
+                                     rec["nacc_end"] < first_false_end):
+                    first_false_end = rec["nacc_end"]
+                probes["is_running_from_threads"] = probes.get(
+                    "is_running_from_threads", 0) + 1
+            else:
+                eq, ne, hh = out[1]
+                if before and (eq is not True or ne is not False or not hh):
+                    V("C02.eq", ["threads", "same_process"], "eq",
+                      "thread %d: shared object vs a fresh Process of the "
+                      "same live process: == %r, != %r, equal hashes %r" % (
+                          t, eq, ne, hh))
+                if after and rec.get("inc2") is not None and eq:
+                    V("C02.eq", ["threads", "different_process"], "eq",
+                      "thread %d: shared object equals a Process built for "
+                      "the new owner of the PID" % t)
+        # afterwards, sequentially
+        k.begin_op(9000)
+        try:
+            r = self._shared["p"].is_running()
+        except BaseException as e:  # noqa: BLE001
+            if is_harness_exc(e):
+                raise
+            r = e
+        k.end_op()
+        cur = k.procs.get(T)
+        listed = gone_v is None
+        if r is not listed:
+            V("C02.running_while_listed" if listed else
+              "C02.running_after_gone", ["threads", "afterwards"],
+              "is_running", "after the threads finished is_running() -> %r; "
+              "the object's process is %s" % (
+                  r, "still in the table" if listed else "gone"))
+
     def check_C07t(self, W, psutil, k, plan, records, V, probes, keys):
         boot = W.boot
         nf = boot["cpu_fields"]
@@ -1190,7 +1289,8 @@ class Threads(EngineBase):
                       "oneshot", "as_dict", "process_iter", ":run:",
                       "wrap_numbers", "cpu_percent", "cpu_times_percent",
                       "_remove_dead", "acc:read", "acc:open",
-                      "acc:listdir")
+                      "acc:listdir", "is_running", "_init", "_get_ident",
+                      "__eq__")
         for j in range(budget):
             pre = []
             npre = rng.randrange(1, maxpre + 1)
